@@ -374,6 +374,11 @@ def run(f, fixture, rep, cfg, tier):
         muts = []
         for l in store_locals:
             muts += [w.decl for (w, _i) in ph.mut_borrow_calls(l)]
+        # the index is kept in input order: the only thing done to the parsed entries is filling in their data
+        ents_t = ag[0].get("index_entries", "")
+        reorder = [c for c in ph.calls() if re.search(r"::(sort\w*|dedup\w*|reverse|retain\w*|swap|swap_remove|remove|insert|truncate|drain|rotate_\w+)(?:::<|$)", c.decl)]
+        rep.check(not reorder, "R5", "Header|index-order", "parse_header keeps the index entries in input order",
+                  "parse_header applies %s: the index written back is not the index that was read (unsorted / duplicate tags are legal input)" % sorted({c.decl for c in reorder}), reorder[0].loc() if reorder else ph.span)
         rep.check(not muts, "R5", "Header|store-untouched", "the store is never modified after it is copied", "the store is modified by %s" % muts, ph.span)
         # loop count = num_entries
         nx = [c for c in ph.calls() if c.decl == "std::iter::Iterator::next" and (c.self_ty or "").startswith("std::ops::Range<u32>")]
